@@ -43,6 +43,7 @@ type c12result struct {
 	Errors   []int
 	Done     bool
 	ErrNil   bool
+	ErrCount int // number of errors the cumulative Err() reports when everything is quiet
 	WaitNil  int // -1 n/a, 0 non-nil, 1 nil
 	CloseNil int
 	ClosePan bool
@@ -178,6 +179,7 @@ func runC12Trial(t *c12trial, record bool) c12result {
 		}
 	}
 	res.ErrNil = h.Err() == nil
+	res.ErrCount = c12ErrCount(h.Err())
 	if root != nil {
 		func() {
 			defer func() {
@@ -348,6 +350,19 @@ func intsCoq(l []int) string {
 }
 
 // permutations of the child-of-done events respecting N<CC, N<PC, F<PC
+// c12ErrCount: how many errors a cumulative error (goaterr.ToError of the list) stands for
+func c12ErrCount(err error) int {
+	if err == nil {
+		return 0
+	}
+	if w, ok := err.(interface{ UnwrapAll() []error }); ok {
+		if l := w.UnwrapAll(); len(l) > 0 {
+			return len(l)
+		}
+	}
+	return 1
+}
+
 func c12Orders() [][]string {
 	ev := []string{"F", "N", "CC", "PC"}
 	var res [][]string
@@ -433,6 +448,9 @@ func runC12(o *Out, rng *RNG, tier string, replay string) {
 		}
 		if res.ErrNil != (len(exp) == 0) {
 			fail("err_iff_nonempty", fmt.Sprintf("Err()==nil is %v with %d errors", res.ErrNil, len(exp)))
+		}
+		if res.ErrCount != len(exp) {
+			fail("accessors", fmt.Sprintf("after all calls returned, Err() reports %d error(s) while %d were appended (Errors() has %d): the cumulative accessor lost errors", res.ErrCount, len(exp), len(res.Errors)))
 		}
 		if res.WaitNil >= 0 && (res.WaitNil == 1) != (len(exp) == 0) {
 			fail("wait_iff_nonempty", fmt.Sprintf("Wait()==nil is %v with %d errors", res.WaitNil == 1, len(exp)))
